@@ -805,9 +805,16 @@ def vis_session(rec, rng, carrier, spec, sess):
     try:
         for k in range(nchildren):
             pc, cc = ctx.Pipe()
-            p = ctx.Process(target=H.vis_child,
-                            args=(cc, k, objs, spec['seed'] * 100 + sess))
-            p.daemon = True
+            if carrier != 'fork' and rng.random() < 0.35:
+                # handed on once more: parent -> child -> grandchild, through
+                # a process that never created a shared object of its own
+                p = ctx.Process(target=H.vis_relay,
+                                args=(cc, k, objs, spec['seed'] * 100 + sess, carrier))
+                st['vis_children_behind_relay'] += 1
+            else:
+                p = ctx.Process(target=H.vis_child,
+                                args=(cc, k, objs, spec['seed'] * 100 + sess))
+                p.daemon = True
             try:
                 H.api('Process.start', p.start)
             except H.ApiError as exc:
